@@ -165,6 +165,10 @@ BIG = [(63, 64, 300), (64, 64, 64 * 5), (65, 64, 400), (64, 63, 64 + 63 * 4 + 1)
        (3, 4097, 20000), (4096, 5000, 30), (5000, 1, 17), (2048, 1000, 9000), (1000, 2048, 9000), (7, 1, 3000)]
 
 
+# long runs: thousands of blocks from one generator (small sizes: cheap), always in both tiers
+LONG = [(7, 1, 3000), (2, 1, 5000), (3, 2, 4100), (1, 1, 4097), (5, 5, 10240), (4, 7, 9000), (16, 15, 20000)]
+
+
 def generate(rng, tier, scale=1):
     cases = []
     quick = tier == "quick"
@@ -228,7 +232,7 @@ def generate(rng, tier, scale=1):
                                       "xs": list(range(n)), "ending": ending, "observe": True,
                                       "ptype": ("int", "intsub", "bool")[(l + r + n) % 3]})
         big = BIG if not quick else [BIG[i] for i in range(len(BIG)) if i % 2 == rng.randrange(2) or BIG[i][0] > 4000]
-        for size, hop, n in big:
+        for size, hop, n in LONG + big:
             for dn in ((0,) if quick else (-1, 0, 1)):
                 cases.append({"entry": "trace", "size": size, "hop": hop, "pad": None, "n": max(0, n + dn),
                               "ending": rng.choice(["stop", "fail"]), "route": rng.choice(["func", "stream"]),
@@ -949,6 +953,17 @@ def tally(eng, c, io):
 # ----------------------------------------------------------------------------
 # shrinking / search / signatures
 # ----------------------------------------------------------------------------
+def _steps(v):
+    """v - 2^k for every 2^k <= v (largest jump first): greedy descent reaches the smallest failing value
+    in O(log^2) evaluations instead of a walk by -1"""
+    k = 1
+    while k * 2 <= v:
+        k *= 2
+    while k >= 1:
+        yield v - k
+        k //= 2
+
+
 def _pow2ish(v):
     """2^k + 1 or 2^k (k >= 6): one step down crosses / reaches the power of two"""
     return v > 64 and ((v - 1) & (v - 2) == 0 or v & (v - 1) == 0)
@@ -986,13 +1001,11 @@ def _shrink1(c):
             if xs:
                 yield dict(c, xs=xs[:-1], first=min(c["first"], len(xs) - 1))
     elif n:
-        if e != "live":
-            yield dict(c, n=n // 2)
-            for v in (c["size"], c["size"] + c["hop"], c["size"] - 1):     # the boundaries of the first blocks
-                if 0 <= v < n:
-                    yield dict(c, n=v)
-        if n <= 64 or e == "live":
-            yield dict(c, n=n - 1)
+        for v in (c["size"], c["size"] + c["hop"], c["size"] - 1):     # the boundaries of the first blocks
+            if 0 <= v < n:
+                yield dict(c, n=v)
+        for v in _steps(n):
+            yield dict(c, n=v)
         if e == "trace" and n <= 40:
             d = dict(c, xs=list(range(n)))
             d.pop("n")
@@ -1005,11 +1018,15 @@ def _shrink1(c):
             d["edits"] = [[op for op in ops if op[0] != "set" or op[1] < d["size"]] for ops in c["edits"]]
         yield d
     if c["size"] > 8:
-        yield dict(c, size=c["size"] // 2, **({"edits": []} if e == "mut" else {}))
+        for v in _steps(c["size"]):
+            if 1 <= v < c["size"] - 1:
+                yield dict(c, size=v, **({"edits": []} if e == "mut" else {}))
     if 1 < c["hop"] <= 64 or _pow2ish(c["hop"]):
         yield dict(c, hop=c["hop"] - 1)
     if c["hop"] > 8:
-        yield dict(c, hop=c["hop"] // 2)
+        for v in _steps(c["hop"]):
+            if 1 <= v < c["hop"] - 1:
+                yield dict(c, hop=v)
         if c["hop"] > c["size"] + 1:
             yield dict(c, hop=c["size"] + 1)
     if c.get("pad") not in (None, "P"):
@@ -1057,11 +1074,18 @@ def _shrink1(c):
             yield dict(c, kind="cell")
 
 
+def _cheap(d):
+    """output volume of a candidate (blocks x size) stays transportable"""
+    if "size" not in d:
+        return True
+    return (nfull(d["size"], d["hop"], case_len(d)) + 1) * d["size"] <= 300000
+
+
 def shrink(c):
     if c["entry"] == "trace" and c["size"] * case_len(c) > 10 ** 6:
         # large case: candidates are compared with the Lean spec only (see the driver's "fast")
         for d in _shrink1(c):
-            if valid(d):
+            if valid(d) and _cheap(d):
                 yield dict(d, fast=True)
         return
     if c["entry"] == "conc":
@@ -1081,7 +1105,7 @@ def shrink(c):
             yield dict(c, order="rr")
         return
     for d in _shrink1(c):
-        if valid(d):
+        if valid(d) and _cheap(d):
             d.pop("fast", None)
             yield d
 
@@ -1110,8 +1134,8 @@ def classify(c, io, drv):
     if e == "blocks":
         r = c.get("route", "func")
         pt = c.get("ptype", "int")
-        fam = r if r in ("gain", "chg_limit", "chg_append", "thub", "thub1", "chgstream", "substream") else "plain"
-        base = "blocks[%s%s]:" % (fam, "" if pt == "int" else "," + pt)
+        fam = r if r in ("gain", "chg_limit", "chg_append", "thub") else "plain"
+        base = "blocks[%s%s]:" % (fam, "" if pt in ("int", "intsub", "bool") else "," + pt)
         if "err" in io:
             return base + io["err"]
         if io.get("arg_ok") is False and io.get("blocks") == drv.get("closed"):
